@@ -70,7 +70,11 @@ def ensure():
 
 def call(req, timeout_s=60):
     ensure()
-    return _roundtrip(req, timeout_s)
+    resp = _roundtrip(req, timeout_s)
+    if resp.get('dirty'):
+        # a request was abandoned (hang): start from a fresh Node process for the next one
+        stop()
+    return resp
 
 
 def stop():
